@@ -177,6 +177,12 @@ Section Oracle.
     violated (rFile orc vn obj field (VStr s)) = is_dir /\ violated (rDir orc vn obj field (VStr s)) = negb is_dir.
   Proof. intros H. unfold rFile, rDir, file_like. cbn. rewrite H. destruct is_dir; split; reflexivity. Qed.
 
+  (* a path that cannot be read violates both rules, and the clause carries the rule's own message *)
+  Theorem file_dir_missing vn obj field s : stat_lookup orc s = None ->
+    rFile orc vn obj field (VStr s) = [CValid obj field s (body_of (pk_msg vn) (s2b "stat"))] /\
+    rDir orc vn obj field (VStr s) = [CValid obj field s (body_of (pk_msg vn) (s2b "stat"))].
+  Proof. intros H. unfold rFile, rDir, file_like. cbn. rewrite H. split; reflexivity. Qed.
+
   (* the date rules ask the parser with exactly the documented layout *)
   Theorem date_rules vn obj field s :
     violated (rYear orc vn obj field (VStr s)) = negb (time_ok orc (s2b "2006") s) /\
